@@ -32,7 +32,8 @@ Record dep := {
   d_filelike : bool;     (* text.to_lowercase().starts_with("file://") *)
   d_code : res;
   d_type : res;
-  d_dyn : bool
+  d_dyn : bool;
+  d_deno_types : bool    (* maybe_deno_types_specifier.is_some() *)
 }.
 
 Inductive mkind := MkJs | MkJson | MkWasm | MkNpm | MkNode | MkExternal.
@@ -45,7 +46,8 @@ Record module := {
   m_media : media;                     (* Module::media_type() *)
   m_deps : list dep;                   (* Module::dependencies(), source order *)
   m_types_dep : option typesdep;       (* Js only *)
-  m_fc_deps : option (list dep)        (* fast check module dependencies, Js only *)
+  m_fc_deps : option (list dep);       (* fast check module dependencies, Js only *)
+  m_dts : bool                         (* Wasm: source_dts non-empty *)
 }.
 
 Inductive slot :=
@@ -59,7 +61,9 @@ Record graph := {
   g_slots : list (spec * slot);          (* BTreeMap: ascending, unique keys *)
   g_redirects : list (spec * spec);      (* BTreeMap *)
   g_imports : list (spec * list dep);    (* IndexMap referrer -> GraphImport deps *)
-  g_schemes : list (spec * scheme)
+  g_schemes : list (spec * scheme);
+  g_has_node : bool;                     (* has_node_specifier *)
+  g_errkinds : list (N * N)              (* interned error -> ModuleErrorKind variant number *)
 }.
 
 Definition scheme_of (g : graph) (s : spec) : scheme :=
@@ -228,9 +232,11 @@ Definition dec_res (s : sexp) : option res :=
   end.
 Definition dec_dep (s : sexp) : option dep :=
   match s with
-  | L [A text; fl; c; t; dy] =>
+  | L [A text; fl; c; t; dy; dt] =>
       do fl' <- as_bool fl; do c' <- dec_res c; do t' <- dec_res t; do dy' <- as_bool dy;
-      Some {| d_text := text; d_filelike := fl'; d_code := c'; d_type := t'; d_dyn := dy' |}
+      do dt' <- as_bool dt;
+      Some {| d_text := text; d_filelike := fl'; d_code := c'; d_type := t'; d_dyn := dy';
+              d_deno_types := dt' |}
   | _ => None
   end.
 Definition dec_deps := as_list_of dec_dep.
@@ -243,11 +249,11 @@ Definition dec_typesdep (s : sexp) : option typesdep :=
   end.
 Definition dec_module (s : sexp) : option module :=
   match s with
-  | L [k; A sp; me; ds; td; fc] =>
+  | L [k; A sp; me; ds; td; fc; dts] =>
       do k' <- dec_mkind k; do me' <- dec_media me; do ds' <- dec_deps ds;
-      do td' <- as_option dec_typesdep td; do fc' <- as_option dec_deps fc;
+      do td' <- as_option dec_typesdep td; do fc' <- as_option dec_deps fc; do dts' <- as_bool dts;
       Some {| m_kind := k'; m_spec := sp; m_media := me'; m_deps := ds';
-              m_types_dep := td'; m_fc_deps := fc' |}
+              m_types_dep := td'; m_fc_deps := fc'; m_dts := dts' |}
   | _ => None
   end.
 Definition dec_slot (s : sexp) : option slot :=
@@ -259,13 +265,14 @@ Definition dec_slot (s : sexp) : option slot :=
   end.
 Definition dec_graph (s : sexp) : option graph :=
   match s with
-  | L [k; roots; slots; reds; imps; schs] =>
+  | L [k; roots; slots; reds; imps; schs; hn; eks] =>
       do k' <- dec_gkind k; do roots' <- as_atoms roots;
       do slots' <- as_list_of (as_pair as_atom dec_slot) slots;
       do reds' <- as_list_of (as_pair as_atom as_atom) reds;
       do imps' <- as_list_of (as_pair as_atom dec_deps) imps;
       do schs' <- as_list_of (as_pair as_atom dec_scheme) schs;
+      do hn' <- as_bool hn; do eks' <- as_list_of (as_pair as_atom as_atom) eks;
       Some {| g_kind := k'; g_roots := roots'; g_slots := slots'; g_redirects := reds';
-              g_imports := imps'; g_schemes := schs' |}
+              g_imports := imps'; g_schemes := schs'; g_has_node := hn'; g_errkinds := eks' |}
   | _ => None
   end.
